@@ -90,7 +90,9 @@ class MixedCheckpointSchedule(CheckpointSchedule):
                     step_type, n1, _ = schedule[
                         self._max_n - self._r - n0,
                         self._snapshots - len(snapshots) + int(reuse_snapshot)]
-                n1 += n0
+                # a step count read from the tabulated (NumPy) schedule is a NumPy
+                # integer: actions carry plain ints
+                n1 = int(n1) + n0
                 if reuse_snapshot and \
                         (snapshots[-1][:2] != (step_type, n0)
                          or snapshots[-1][2] < n1):
